@@ -315,9 +315,9 @@ def build(spec):
         for k, v in spec["items"]:
             object.__setattr__(o, k, build(v))
         return o
-    if kind == "attrdict":                     # the library's default container (attribute and item access in sync)
+    if kind in ("attrdict", "attrdict_plain"):  # the library's default container (attribute and item access in sync)
         from xdeps.utils import AttrDict
-        d = AttrDict() if len(spec["items"]) % 2 else make_attrdict_sub()()          # ... or a user subclass of it
+        d = AttrDict() if len(spec["items"]) % 2 or kind == "attrdict_plain" else make_attrdict_sub()()          # ... or a user subclass of it
         for k, v in spec["items"]:
             d[k] = build(v)
         return d
